@@ -575,8 +575,13 @@ def _run_os(sh, params):
                              dict(tags, exact_tie=bool(s_prev == 0)))
 
     # ---- which = 'c' and 'p' ----------------------------------------------------------
-    for (p, c, n, r) in _os_queries(sh.seed, sh.tier, "cp", nq, sl, nsl):
-        r = min(r, n)
+    for iq_, (p, c, n, r) in enumerate(_os_queries(sh.seed, sh.tier, "cp", nq, sl, nsl)):
+        if iq_ % 6 == 5 and r > n:
+            # a rank above the sample size (all ranks r >= 1 are quantified over): the
+            # confidence is exactly 0 -- a number, not nan
+            sh.count("cell:os-c:rank-above-sample-size")
+        else:
+            r = min(r, n)
         case = {"which": "c", "p": p, "n": n, "r": r}
         tags = {"which": "c"}
         sh.case(case, True)
@@ -603,7 +608,7 @@ def _run_os(sh, params):
             sh.violation("order-c-exact-tail", case, {"got": got, "want": w, "err": e,
                                                       "tol": tol}, tags)
         # 'p' inverts 'c'
-        if not (1e-12 < c < 1):
+        if not (1e-12 < c < 1) or r > n:
             continue
         case = {"which": "p", "c": c, "n": n, "r": r}
         tags = {"which": "p"}
@@ -673,6 +678,10 @@ def _run_os(sh, params):
             ("p", dict(c=cc[None, :], n=int(nn[-1]), r=rr[:, None]), ("r", rr), ("c", cc)),
             # c >= 0.1 > (1-p): keeps clear of the known n = r bracket failure
             ("n", dict(c=ccn[None, :], p=0.99, r=rr[:, None]), ("r", rr), ("c", ccn)),
+            # first element answered by the 'n = r already suffices' shortcut (an integer),
+            # the others by the root search
+            ("n", dict(c=0.5, p=np.array([[0.05, 0.9, 0.99]]), r=rr[:, None]), ("r", rr),
+             ("p", np.array([0.05, 0.9, 0.99]))),
             ("n", dict(c=0.9, p=pr[pr >= 0.9][None, :] if np.any(pr >= 0.9) else
                        np.array([[0.95]]), r=rr[:, None]), ("r", rr),
              ("p", pr[pr >= 0.9] if np.any(pr >= 0.9) else np.array([0.95]))),
